@@ -491,6 +491,9 @@ func check(c *core.Ctx, sc stmtCase, t1 sqlparser.Statement, idx int) *construct
 		case cs.otherStmt && f.kind == "reparse":
 			// vitess keeps nothing of EXPLAIN/DESCRIBE/REPAIR/OPTIMIZE ...: the node prints a placeholder word
 			return "other-read-admin-placeholder"
+		case cs.root == "Show":
+			// Show keeps a pre-rendered Type string and drops most of the statement
+			return "show-statement-printed-lossily"
 		case cs.emptyIdent:
 			// `t.&&` / `t.||` are accepted as a name whose part is the (empty) text of the token;
 			// what is printed (`t.` glued to whatever follows) can then read as anything
@@ -502,9 +505,6 @@ func check(c *core.Ctx, sc stmtCase, t1 sqlparser.Statement, idx int) *construct
 		case cs.rawQuotedName && (identSite || f.kind == "tree"):
 			// charset / collation / unit / type ... names are kept as Go strings and printed with %s
 			return "quoted-name-kept-as-raw-string-printed-bare"
-		case cs.root == "Show":
-			// Show keeps a pre-rendered Type string and drops most of the statement
-			return "show-statement-printed-lossily"
 		case cs.gcSeparator && f.kind == "reparse":
 			return "group-concat-separator-printed-unescaped"
 		case cs.types["ListArg"] > 0:
@@ -523,6 +523,8 @@ func check(c *core.Ctx, sc stmtCase, t1 sqlparser.Statement, idx int) *construct
 		if key == "" {
 			key = f0.key()
 			dump(c, key, f0.detail, replay)
+		} else if key == os.Getenv("VERIF_C30_DUMPKEY") {
+			dump(c, key, f0.detail, replay)
 		}
 		c.Violation(key, f0.detail, replay)
 		return cs
@@ -534,6 +536,9 @@ func check(c *core.Ctx, sc stmtCase, t1 sqlparser.Statement, idx int) *construct
 		replay["repairs_applied"] = keysOf(active)
 		replay["printed_with_repairs"] = fAll.printed
 		if key := unrepairable(fAll); key != "" {
+			if key == os.Getenv("VERIF_C30_DUMPKEY") {
+				dump(c, key, fAll.detail, replay)
+			}
 			c.Violation(key, fAll.detail, replay)
 			return cs
 		}
